@@ -150,6 +150,7 @@ pub fn rsp_meaning(s: &PduSpec) -> Option<RspM> {
                 w.clone(),
             ),
             RspSpec::Cus(_, b, d) => RspM::Custom(*b, d.clone()),
+            RspSpec::Res(x) => RspM::Res(*x),
             RspSpec::CoilsS(n, s) => RspM::Coils(if *n == "RC" { 1 } else { 2 }, ref_src_bits(s)?),
             RspSpec::RegsS(n, s) => RspM::Regs(
                 match *n {
@@ -281,6 +282,13 @@ pub fn rsp_matches(v: &Response, m: &RspM, pad: bool) -> V {
                 Err(format!("custom {:02X} {} != {:02X} {}", fc.value(), hex_of(d), c, hex_of(d2)))
             }
         }
+        (Response::ReadExceptionStatus(x), RspM::Res(y)) => {
+            if x == y {
+                Ok(())
+            } else {
+                Err(format!("status {x} != {y}"))
+            }
+        }
         _ => Err(format!("different kind: got {}", rsp_str(v).split(' ').next().unwrap_or("?"))),
     }
 }
@@ -304,7 +312,8 @@ fn in_scope_custom_req(c: u8) -> bool {
     c < 0x80 && !MODELLED_REQ.contains(&c)
 }
 fn in_scope_custom_rsp(c: u8) -> bool {
-    !MODELLED_REQ.contains(&c)
+    // 0x07: the response decoder has its own variant for read-exception-status
+    !MODELLED_REQ.contains(&c) && c != 0x07
 }
 
 /* ---------- C01 / C02 / C03 / C19 ---------- */
@@ -1497,6 +1506,13 @@ fn c16(bits: &[bool], tlen: usize, fill: &str) -> String {
             if got1 != Some(want1) {
                 return Err(format!("after one next(), nth({i}) {}, expected {want1:?}", match got1 { None => "panicked".to_string(), Some(x) => format!("gives {x:?}") }));
             }
+        }
+        // the value itself must not depend on what the target held before nor on its excess capacity
+        let mut t3: Vec<u8> = before.iter().map(|x| !*x).collect();
+        t3.extend([0x3Cu8; 3]);
+        match catch(|| Coils::from_bools(bits, &mut t3).map(|c3| (c3 == c, format!("{c3:?}") == format!("{c:?}")))) {
+            Some(Ok((true, true))) => {}
+            o => return Err(format!("from_bools of the same coils into a target with other prior contents / 3 more bytes compares (==, Debug) {o:?} with the first value")),
         }
         Ok(())
     })();
